@@ -516,6 +516,40 @@ def layout_matrix(rng, host):
     return out
 
 
+def flag_layouts(rng, host, quick):
+    """the directory choice under -compile -goos X / -goarch Y / both: a magefiles/ subdirectory next to tagged files of
+    the directory itself that are constrained (name suffix or //go:build term) to the host or to the target platform.
+    The probe "has the directory magefiles of its own?" must be made for the TARGET platform: (top, sub, (goos, goarch))"""
+    M = ("tag", "mage")
+    X = "windows" if host[0] != "windows" else "linux"
+    Y = "arm64" if host[1] != "arm64" else "amd64"
+    variants = [(X, ""), ("", Y), (X, host[1] if host[1] != "arm64" else "amd64")]
+    if not quick:
+        variants += [(X, Y), ("darwin" if host[0] != "darwin" else "linux", "")]
+    out = []
+    for goos, goarch in variants:
+        plat = forced_platform(host, goos, goarch)
+        ht, tt = (host[0], plat[0]) if goos else (host[1], plat[1])      # the tag / suffix that differs between host and target
+        def sub():
+            fs = [e2e_file("targets.go", rng.choice([None, M]), "Folder"), e2e_file("plain_%s.go" % tt, None, "Foldertarget"),
+                  e2e_file("plain_%s.go" % ht, M, "Folderhost")]
+            return {"id": -1, "files": sorted(fs, key=lambda f: f["name"].encode()), "mixed": False}
+        tops = [
+            [e2e_file("build_%s.go" % tt, M, "Roottarget")],                                        # suffix, for the target only
+            [e2e_file("build_%s.go" % ht, M, "Roothost")],                                          # suffix, for the host only
+            [e2e_file("build.go", ("and", M, ("tag", tt)), "Roottarget")],                          # //go:build term, target only
+            [e2e_file("build.go", rng.choice([("and", M, ("tag", ht)), ("and", M, ("not", ("tag", tt)))]), "Roothost")],
+            [e2e_file("build_%s.go" % tt, M, "Roottarget"), e2e_file("tasks_%s.go" % ht, M, "Roothost"), e2e_file("lib.go", None, "Leaked")],
+            [e2e_file("lib.go", None, "Leaked"), e2e_file("gen_%s.go" % tt, ("not", M), "Notmage")],  # nothing requires the tag anywhere
+        ]
+        for k, top in enumerate(tops):
+            out.append(({"id": -1, "files": sorted(top, key=lambda f: f["name"].encode()), "mixed": False}, sub(), (goos, goarch)))
+        # and without a magefiles/ folder: host file and target file side by side
+        out.append(({"id": -1, "files": sorted([e2e_file("build_%s.go" % tt, M, "Roottarget"), e2e_file("build_%s.go" % ht, M, "Roothost"),
+                                                 e2e_file("lib.go", None, "Leaked")], key=lambda f: f["name"].encode()), "mixed": False}, None, (goos, goarch)))
+    return out
+
+
 def e2e_dir(rng, nfiles, ensure, prefix="T"):
     """a directory whose files are all valid, package main, each defining one target T<i>;
     ensure(f) says whether at least one file must satisfy something (callers retry)"""
@@ -566,6 +600,8 @@ def run_e2e(ctx, host, nrelease, release, tooltags):
         jobs.append({"kind": "subdir", "top": top, "sub": sub, "env": envs[(i + 1) % len(envs)], "plat": host, "flags": ("", "")})
     for i, (top, sub) in enumerate(layout_matrix(rng, host)):
         jobs.append({"kind": "layout", "top": top, "sub": sub, "env": envs[i % len(envs)], "plat": host, "flags": ("", "")})
+    for top, sub, flags in flag_layouts(rng, host, ctx.quick):
+        jobs.append({"kind": "compile", "top": top, "sub": sub, "env": envs[len(jobs) % 2], "plat": forced_platform(host, *flags), "flags": flags})
     cross = [("windows", "amd64"), ("darwin", "arm64"), ("linux", "arm64"), ("windows", "")]
     for i in range(n_cross):
         goos, goarch = cross[i % len(cross)]
@@ -593,24 +629,33 @@ def run_e2e(ctx, host, nrelease, release, tooltags):
             if j["flags"][1]:
                 args += ["-goarch", j["flags"][1]]
             r = mg.run(proj, args, env=j["env"], timeout=600)
+            if r["rc"] != 0:      # the go tool occasionally fails under heavy load (build cache races): once more before believing it
+                r = mg.run(proj, args, env=j["env"], timeout=600)
             res["rc"] = r["rc"]
             # which files were compiled in: the binary's function-name table holds main.<Target> of every file used
             # (the targets are //go:noinline and reachable from the generated main); no wording of any message is read
             blob = open(out, "rb").read() if os.path.exists(out) else b""
-            res["files"] = sorted(f["name"] for f in j["top"]["files"]
-                                  if re.search(rb"main\." + f["ident"].encode() + rb"(?![A-Za-z0-9_])", blob)) if blob else None
+            def compiled(d):
+                return sorted(f["name"] for f in d["files"] if re.search(rb"main\." + f["ident"].encode() + rb"(?![A-Za-z0-9_])", blob))
+            res["files"] = compiled(j["top"]) if blob else None
+            res["subfiles"] = compiled(j["sub"]) if blob and j["sub"] is not None else []
             res["magic"] = blob[:4].hex() if blob else None
             res["err"] = r["err"][-1500:] if r["rc"] != 0 else ""
         else:
             r = mg.run(proj, ["-l"], env=j["env"])
+            if r["rc"] != 0:
+                r = mg.run(proj, ["-l"], env=j["env"])
             res["rc"] = r["rc"]
             res["targets"] = sorted(projlib.parse_list(r["out"])["targets"])
             res["warn"] = bool(r["err"].strip())      # some warning on stderr; its wording is not read
             res["err"] = r["err"][-1500:] if r["rc"] != 0 else ""
             res["wd"] = None
             if r["rc"] == 0 and res["targets"]:
-                r2 = mg.run(proj, [res["targets"][0]], env=j["env"])
-                m = re.search(r"^WD (.*)$", r2["out"], re.M)
+                for _ in range(3):
+                    r2 = mg.run(proj, [res["targets"][0]], env=j["env"])
+                    m = re.search(r"^WD (.*)$", r2["out"], re.M)
+                    if m or r2["rc"] == 0:
+                        break
                 res["wd"] = os.path.realpath(m.group(1)) if m else "?" + r2["err"][-300:]
         return res
 
@@ -632,19 +677,24 @@ def run_e2e(ctx, host, nrelease, release, tooltags):
         ident = {f["name"]: f["ident"].lower() for f in d["files"]}
         bad = None
         got_files = None
-        if not want and j["kind"] != "compile":
+        if not want:
             # neither the directory nor a magefiles subdirectory provides a magefile: mage must say so
             if res["rc"] == 0 or res.get("targets"):
-                bad = "no file of the project requires the mage tag, but `mage -l` exited %d listing %s: %s" % (res["rc"], res.get("targets"), res["err"][-300:])
+                bad = "no file of the project requires the mage tag, but mage exited %d using %s: %s" % (
+                    res["rc"], res.get("targets") or (res.get("files"), res.get("subfiles")), res["err"][-300:])
         elif res["rc"] != 0:
             bad = "mage failed (rc=%d): %s" % (res["rc"], res["err"][-400:])
         elif j["kind"] == "compile":
             magic = {"windows": "4d5a", "linux": "7f454c46", "darwin": "cffaedfe"}[plat[0]]
-            if res["files"] is None or set(res["files"]) != want:
-                bad = "-compile for %s/%s used the files %s, the property sentence says %s" % (plat[0], plat[1], res["files"], sorted(want))
+            got_top, got_sub = res["files"], res["subfiles"]
+            exp_top, exp_sub = (set(), want) if use_sub else (want, set())
+            if got_top is None or set(got_top) != exp_top or set(got_sub) != exp_sub:
+                bad = "-compile %s for %s/%s compiled %s of the directory and %s of magefiles/, the property sentence says %s of the %s" % (
+                    " ".join(x for x in ("-goos " + j["flags"][0] if j["flags"][0] else "", "-goarch " + j["flags"][1] if j["flags"][1] else "") if x),
+                    plat[0], plat[1], got_top, got_sub, sorted(want), "magefiles subdirectory" if use_sub else "directory")
             elif not (res["magic"] or "").startswith(magic):
                 bad = "-compile -goos %s -goarch %s produced a file starting with %s (expected %s)" % (j["flags"][0], j["flags"][1], res["magic"], magic)
-            got_files = res["files"]
+            got_files = res["subfiles"] if use_sub else res["files"]
         else:
             wt = sorted(ident[n] for n in want)
             got_files = sorted(n for n in ident if ident[n] in res["targets"])
@@ -655,14 +705,17 @@ def run_e2e(ctx, host, nrelease, release, tooltags):
             elif j["sub"] is not None and not use_sub and not res["warn"]:
                 bad = "no warning although both the directory and its magefiles subdirectory hold magefiles"
         if bad:
-            ctx.violation({"kind": "oracle", "clause": "end-to-end: " + bad}, case=case)
+            if len(ctx.violations) < 8:
+                ctx.violation({"kind": "oracle", "clause": "end-to-end: " + bad}, case=case)
+            else:
+                ctx.add("further_oracle_failures_not_written")
         if got_files is not None and res["rc"] == 0:
             ditems.append("{| d_top := %s; d_sub := %s; d_has_sub := %s; d_top_named := false; d_hostos := %s; d_hostarch := %s; d_cgo := false; d_release := %s; d_tool := %s; "
                           "d_goos := %s; d_goarch := %s; d_obs := (%s, Some %s) |}" % (
                               coq_list([file_coq(f) for f in j["top"]["files"]]), coq_list([file_coq(f) for f in (j["sub"] or {"files": []})["files"]]),
                               coq_bool(j["sub"] is not None), coq_str(host[0]), coq_str(host[1]), coq_list([coq_str(t) for t in release]),
                               coq_list([coq_str(t) for t in tooltags]), coq_str(j["flags"][0]), coq_str(j["flags"][1]),
-                              coq_bool(bool(res.get("wd")) and j["sub"] is not None and not res.get("warn")) if j["kind"] != "compile" else "false",
+                              coq_bool(bool(res.get("wd")) and j["sub"] is not None and not res.get("warn")) if j["kind"] != "compile" else coq_bool(bool(res.get("subfiles")) and not res.get("files")),
                               coq_list([coq_str(n) for n in sorted(got_files, key=lambda s: s.encode())])))
             dmeta.append(case)
     if ditems:
